@@ -177,6 +177,31 @@ func c16catalogue() []c16item {
 			}
 		}})
 	}
+	// authentic envelopes with unexpected header fields: another session id, another salt, msg_id extremes
+	for _, how := range []string{"other-session", "other-salt", "msg_id-top-bit", "msg_id-small", "seq_no-negative"} {
+		how := how
+		items = append(items, c16item{Name: "envelope-" + how, raw: func(cn *refserver.Conn) {
+			key, sess := cn.KeySession()
+			if key == nil {
+				return
+			}
+			salt, _ := cn.S.Salt(key)
+			in := mtp.Inner{Salt: salt, Session: sess, MsgID: cn.S.NextMsgID(1), SeqNo: 1, Body: refserver.Pong(1, 2)}
+			switch how {
+			case "other-session":
+				in.Session ^= 0x5a5a5a5a5a5a5a5a
+			case "other-salt":
+				in.Salt ^= 0x0101010101010101
+			case "msg_id-top-bit":
+				in.MsgID |= -1 << 63
+			case "msg_id-small":
+				in.MsgID = 5
+			case "seq_no-negative":
+				in.SeqNo = -1
+			}
+			cn.SendRaw(mtp.Seal(key, in, 8, make([]byte, (16-(32+len(in.Body))%16)%16)))
+		}})
+	}
 	for _, n := range []int{0, 1, 3, 5, 7, 8, 23} {
 		n := n
 		items = append(items, c16item{Name: fmt.Sprintf("frame-of-%d-bytes", n), raw: func(cn *refserver.Conn) {
